@@ -906,6 +906,27 @@ theorem nexus_translate_repeated_inner_name_tipsOnly_ok :
      | _ => false) = true := by
   decide +kernel
 
+/-- The defect repaired by 6a194b0 (found by the second audit) as a theorem about the pinned reader
+    `Nex.parseAllTaxa` on a concrete witness (C01's Newick model): the list `(a,b,(c,d));`, `(a,b,c);` — both
+    trees well-formed, tip sets different — written as ONE Nexus document (TAXA block = the union a b c d) was
+    refused, with and without translate table (every label of the TAXA block had to be in every tree);
+    the current reader delivers both trees.  (`sameTaxa` stays a hypothesis of the general
+    `nexus_roundtrip_*` theorems; the oracle runs on such lists.) -/
+theorem nexus_list_differing_taxa_fails :
+    let t1 : T := .node ⟨"", []⟩ 0 [(EdgeD.blank, T.leaf "a"), (EdgeD.blank, T.leaf "b"),
+      (EdgeD.blank, .node ⟨"", []⟩ 0 [(EdgeD.blank, T.leaf "c"), (EdgeD.blank, T.leaf "d")])]
+    let t2 : T := .node ⟨"", []⟩ 0 [(EdgeD.blank, T.leaf "a"), (EdgeD.blank, T.leaf "b"), (EdgeD.blank, T.leaf "c")]
+    let C := c01Codec Newick.ratCodec
+    let back := fun (r : Nex.PRes Nex.NexDoc) => match r with
+      | .ok [(_, u1), (_, u2)] => sameKept u1 t1 && sameKept u2 t2
+      | _ => false
+    sameTaxa [t1, t2] = false ∧
+    (Nex.parseAllTaxa C (writeNexus C false [(0, t1), (1, t2)])).isErr = true ∧
+    (Nex.parseAllTaxa C (writeNexus C true [(0, t1), (1, t2)])).isErr = true ∧
+    back (Nex.parse C (writeNexus C false [(0, t1), (1, t2)])) = true ∧
+    back (Nex.parse C (writeNexus C true [(0, t1), (1, t2)])) = true := by
+  decide +kernel
+
 /-- The defect repaired by 82a8873 as a theorem about the pinned parser: a document with two TREES
     blocks (one tree, then two) is read as THREE trees by the current parser and as the last TWO by the
     pinned one, without any error. -/
